@@ -361,3 +361,29 @@ theorem mro_subset_of_bases_subset (bases bases' : α → List α) (hsub : ∀ x
           exact List.mem_cons_of_mem _ (h4.subset this)
 
 end MxModel.C3
+
+namespace MxModel.C3
+variable {α : Type} [DecidableEq α]
+
+/-- every space of a linearisation other than the first is a direct base of a space of it -/
+theorem mro_mem_cases (bases : α → List α) : ∀ (d : Nat) (q : α) (l : List α),
+    mro bases d q = some l → ∀ x ∈ l, x = q ∨ ∃ y ∈ l, x ∈ bases y := by
+  intro d
+  induction d with
+  | zero => intro q l h; simp [mro] at h
+  | succ d ih =>
+    intro q l h x hx
+    obtain ⟨r, rfl⟩ := mro_head bases _ q l h
+    simp only [List.mem_cons] at hx
+    rcases hx with rfl | hx
+    · exact Or.inl rfl
+    · right
+      rcases mro_tail_mem bases d q r h x hx with hb | ⟨b, hb, lb, hlb, hxb⟩
+      · exact ⟨q, by simp, hb⟩
+      · obtain ⟨lb', h3, h4⟩ := mro_base bases d q r h b hb
+        rw [hlb] at h3; cases h3
+        rcases ih b lb hlb x hxb with rfl | ⟨y, hy, hxy⟩
+        · exact ⟨q, by simp, hb⟩
+        · exact ⟨y, List.mem_cons_of_mem _ (h4.subset hy), hxy⟩
+
+end MxModel.C3
